@@ -16,6 +16,41 @@ from ..mnf import MNF, rB, rV, rA, rinv, add, mul, strip_wrappers
 
 EXPLANATION = __doc__
 ND = "sempler.normal_distribution.NormalDistribution."
+
+
+def overlap_guard(cond):
+    """is `cond` true exactly when Y and X share an element?  Decided in every Venn world of the two index sets, so
+    `not set(Y).isdisjoint(X)`, `set(Y) & set(X)` as a truth value, `len(set(X).intersection(Y)) > 0` ... are all accepted"""
+    from ..setpred import SetAlg
+    from ..sym import subst
+    Y_, X_ = ("YSET",), ("XSET",)
+    t = cond
+    for raw, sym_ in ((PY, Y_), (PX, X_)):
+        for w_ in (("ext", "set", (raw,), ()), ("ext", "frozenset", (raw,), ()), strip_wrappers(raw)):
+            t = subst(t, {w_: sym_})
+        t = subst(t, {raw: sym_})
+    # membership mask: m = zeros(n, bool); m[A] = True; m[B].any()   <=>   A and B share an element
+    def mask_any(u):
+        if u[0] == "method" and u[2] == "any" and not u[3]:
+            u = u[1]
+        elif u[0] == "ext" and u[1] in ("numpy.any", "any") and len(u[2]) == 1:
+            u = u[2][0]
+        else:
+            return False
+        if not (u[0] == "sub" and u[1][0] == "store"):
+            return False
+        st, b_ = u[1], u[2]
+        base, a_, val = st[1], st[2], st[3]
+        boolz = base[0] == "ext" and base[1] in ("numpy.zeros", "numpy.zeros_like") and dict(base[3]).get("dtype") in (("extref", "bool"), ("extref", "numpy.bool_"))
+        return boolz and is_const(val, True) and {a_, b_} == {Y_, X_}
+    if mask_any(t):
+        return True
+    alg = SetAlg([Y_, X_])
+    try:
+        ok, _ = alg.equal(lambda w: alg.truth(t, w), lambda w: alg.nonempty(("binop", "&", Y_, X_), w))
+        return ok
+    except Inconclusive:
+        return None
 MU, C = ("self", "mean"), ("self", "covariance")
 PY, PX, Px = ("param", "Y"), ("param", "X"), ("param", "x")
 
@@ -101,6 +136,7 @@ def run(prog, rep, tier):
     want_ov = [("nonempty", ("binop", "&", ("ext", "set", (PY,), ()), ("ext", "set", (PX,), ()))),
                ("nonempty", ("binop", "&", ("ext", "set", (PX,), ()), ("ext", "set", (PY,), ())))]
     found = {"len": None, "overlap": None}
+    decided_wrong = set()         # guards whose condition was read completely and is not the wanted one
     for r in raises:
         last = r.path[-1] if r.path else None
         if last is None or last[1] is not True:
@@ -108,14 +144,25 @@ def run(prog, rep, tier):
         p = npred(strip_wrappers(last[0]), True)
         if p == want_len:
             found["len"] = r
-        if p in want_ov:
+        og = overlap_guard(strip_wrappers(last[0]))
+        if p in want_ov or og is True:
             found["overlap"] = r
+        elif og is False:
+            decided_wrong.add(id(r))
+        if p != want_len and p[0] in (">0", ">=0", "==0", "!=0"):
+            decided_wrong.add(id(r))
     invs = [c2 for c2 in S.select("call", qname=f.qname) if c2.target in ("numpy.linalg.inv", "numpy.linalg.solve", "numpy.linalg.pinv",
                                                                                "numpy.linalg.lstsq", ND + "__init__", ND + "marginal")]
     for k, label in (("len", "len(X) != len(x)"), ("overlap", "Y ∩ X non-empty")):
         r = found[k]
         if r is None:
-            rep.bad("GUARD.conditional." + k, fwhere(f), "no ValueError is raised exactly when %s" % label)
+            # a ValueError whose condition reads both quantities, in a form that is not recognised, is not a missing guard
+            names = {"len": (PX, Px), "overlap": (PY, PX)}[k]
+            cand = [r2 for r2 in raises if r2.path and r2 not in found.values() and id(r2) not in decided_wrong and all(any(z == nm_ for z in walk(r2.path[-1][0])) for nm_ in names)]
+            if cand:
+                rep.unk("GUARD.conditional." + k, fwhere(f, cand[0].node), "a ValueError guard reads %s in a form that is not decided: %s" % (label, fmt(cand[0].path[-1][0])[:80]))
+            else:
+                rep.bad("GUARD.conditional." + k, fwhere(f), "no ValueError is raised exactly when %s" % label)
             continue
         cond = (r.path[-1][0], False)
         late = [x for x in invs if cond not in x.path]
